@@ -416,30 +416,45 @@ class BlockModeTarget(Target):
 
 # ---- stream ciphers ----------------------------------------------------------------
 class StreamCipherTarget(Target):
-    """spec = ("stream", name, keylen, noncelen)"""
+    """spec = ("stream", name, keylen, noncelen[, options])   options: (("seek", position),) for ChaCha20
+    (the object is positioned with seek() before the first byte), (("drop", n),) for ARC4"""
     kind = "cipher"
     dirs = ("e", "d")
 
     def __init__(self, spec, thorough):
         Target.__init__(self, spec)
-        _, sname, klen, nlen = spec
+        sname, klen, nlen = spec[1:4]
+        opts = dict(spec[4]) if len(spec) > 4 else {}
         self.sname, self.klen, self.nlen = sname, klen, nlen
+        self.seek = opts.get("seek")
+        self.drop = opts.get("drop")
         self.mod = _cmod(sname)
         self.key = seeded("c09/key/%s/%d" % (sname, klen), klen)
         self.nonce = seeded("c09/nonce/%s/%d" % (sname, nlen), nlen)
-        self.name = "%s(key %d%s)" % (sname, klen, ", nonce %d" % nlen if nlen else "")
+        self.name = "%s(key %d%s%s)" % (sname, klen, ", nonce %d" % nlen if nlen else "",
+                                        "".join(", %s %d" % kv for kv in sorted(opts.items())))
         self.keyname = sname
         if sname == "ARC4":
-            st = Stream("m", "encrypt/decrypt", 16, bset(16, (255, 256, 257)), has_out=False)
+            st = Stream("m", "encrypt/decrypt", 16, bset(16, (255, 256, 257)), has_out=False,
+                        win=[16, 256] if thorough else None)
         else:
             ext = (127, 128, 129) + ((191, 192, 193, 255, 256, 257) if thorough else ())
-            st = Stream("m", "encrypt/decrypt", 64, bset(64, ext), has_out=True)
+            st = Stream("m", "encrypt/decrypt", 64, bset(64, ext), has_out=True,
+                        win=[64, 128] if thorough else None)
         self.streams = [st]
 
-    def open(self, dirn, inputs, aux, ctor_obj):
+    def _new(self):
         if self.sname == "ARC4":
-            return CipherSession(self.mod.new(self.key), dirn)
-        return CipherSession(self.mod.new(key=self.key, nonce=self.nonce), dirn)
+            if self.drop is not None:
+                return self.mod.new(self.key, drop=self.drop)
+            return self.mod.new(self.key)
+        c = self.mod.new(key=self.key, nonce=self.nonce)
+        if self.seek is not None:
+            c.seek(self.seek)
+        return c
+
+    def open(self, dirn, inputs, aux, ctor_obj):
+        return CipherSession(self._new(), dirn)
 
     def dec_setup(self, inputs, enc_out, enc_final):
         return [enc_out], {}, (inputs[0], b"")
@@ -447,26 +462,32 @@ class StreamCipherTarget(Target):
     def src_new(self, dirn, inputs, aux, data_expr=None):
         n = self.sname
         if n == "ARC4":
-            return "from Crypto.Cipher import ARC4", "ARC4.new(%s)" % _hx(self.key)
-        return "from Crypto.Cipher import %s" % n, "%s.new(key=%s, nonce=%s)" % (n, _hx(self.key), _hx(self.nonce))
+            return "from Crypto.Cipher import ARC4", "ARC4.new(%s%s)" % (
+                _hx(self.key), "" if self.drop is None else ", drop=%d" % self.drop)
+        e = "%s.new(key=%s, nonce=%s)" % (n, _hx(self.key), _hx(self.nonce))
+        if self.seek is not None:
+            e = "(lambda c: (c.seek(%d), c)[1])(%s)" % (self.seek, e)
+        return "from Crypto.Cipher import %s" % n, e
 
     def ref(self, inputs):
         from ..ref import chacha, rc4
         pt = inputs[0]
         n = len(pt)
         if self.sname == "ARC4":
-            ks = rc4.rc4_keystream(self.key, n)
+            ks = rc4.rc4_keystream(self.key, n, drop=self.drop or 0)
         elif self.sname == "Salsa20":
             ks = chacha.salsa20_stream(self.key, self.nonce, n)
         else:
-            ks = chacha.chacha20_stream(self.key, self.nonce, n)
+            ks = chacha.chacha20_stream(self.key, self.nonce, n, pos=self.seek or 0)
         return bytes(a ^ b for a, b in zip(pt, ks)), b""
 
 
 # ---- AEADs (all but SIV) -------------------------------------------------------------
 class AeadTarget(Target):
     """spec = ("aead", mode, cipher, keylen, variant, extra_kw_tuple)
-    variant: CCM -> (declare_assoc_len, declare_msg_len); ChaCha20-Poly1305 -> nonce length"""
+    variant: CCM -> (declare_assoc_len, declare_msg_len); ChaCha20-Poly1305 -> nonce length
+    extra_kw_tuple: keyword arguments of new() (use_aesni, use_clmul, mac_len) and the pseudo option
+    ("nonce_len", n) (default: 11 bytes)"""
     kind = "aead"
     dirs = ("e", "d")
     combo = True
@@ -476,6 +497,8 @@ class AeadTarget(Target):
         _, mode, cname, klen, variant, extra = spec
         self.mode, self.cname, self.klen, self.variant = mode, cname, klen, variant
         self.extra = dict(extra)
+        self.nonce_len = self.extra.pop("nonce_len", None)
+        self.mac_len = self.extra.get("mac_len")
         self.multi_m = True
         if mode == "CHAPOLY":
             from Crypto.Cipher import ChaCha20_Poly1305
@@ -491,7 +514,7 @@ class AeadTarget(Target):
             self.mod = _cmod(cname)
             self.key = _key(cname, klen)
             bs = self.mod.block_size
-            self.nonce = seeded("c09/nonce/%s" % mode, 11)
+            self.nonce = seeded("c09/nonce/%s" % mode, 11 if self.nonce_len is None else self.nonce_len)
             self.name = "%s-%d/%s%s%s" % (cname, klen * 8, mode,
                                           ("(assoc_len %s, msg_len %s)" % tuple("declared" if v else "-" for v in variant))
                                           if mode == "CCM" else "",
@@ -503,16 +526,41 @@ class AeadTarget(Target):
             if mode == "CCM":
                 self.multi_m = bool(variant[1])
         ext_m = ()
+        ext_a = ()
+        win_m = [16, 64] if mode == "CHAPOLY" else [cm]
+        win_a = None
         if mode in ("GCM", "CCM", "EAX"):
             ext_m = (8 * cm - 1, 8 * cm, 8 * cm + 1)       # CTR keystream buffer inside the AEAD
+            if thorough:
+                ext_m += (16 * cm - 1, 16 * cm, 16 * cm + 1)   # ... refilled twice
+                win_m = [cm, 8 * cm]
         if mode == "CHAPOLY":
             ext_m = (15, 16, 17, 31, 32, 33)               # Poly1305 block inside
+            if thorough:
+                ext_m += (127, 128, 129)
+                win_m = [16, 64, 128]
+        if mode == "OCB" and thorough:
+            # raw_ocb.c: offset = offset ^ L[ntz(block counter)]: the L index changes at 2^k blocks
+            ext_m = ext_a = (4 * cm - 1, 4 * cm, 4 * cm + 1, 8 * cm - 1, 8 * cm, 8 * cm + 1,
+                             16 * cm - 1, 16 * cm, 16 * cm + 1)
+            win_m = [cm, 4 * cm, 8 * cm]
+        if thorough:
+            if mode != "OCB":
+                ext_a = (3 * ca - 1, 3 * ca, 3 * ca + 1)
+            win_a = [ca, 2 * ca] if mode != "OCB" else [ca, 4 * ca, 8 * ca]
+            if mode == "CCM":
+                # the AAD is MACed behind its own length encoding: 2 bytes below 0xFF00 bytes, 6 bytes from there
+                # on, so the 16-byte cache fills at 14, 30, ... (resp. 10, 26, ...) bytes of AAD
+                ext_a += (13, 14, 29, 30, 0xFF00 - 1, 0xFF00, 0xFF00 + 1)
+                win_a = [14, 30]
+                self.ref_any_len = True
         small = [0, 1, ca - 1, ca, ca + 1, 2 * ca + 1]
         self.streams = [
-            Stream("a", "update", ca, bset(ca), default=5, joint=bset(ca) if thorough else small),
+            Stream("a", "update", ca, bset(ca, ext_a), default=5, joint=bset(ca) if thorough else small,
+                   win=win_a),
             Stream("m", "encrypt/decrypt", cm, bset(cm, ext_m), has_out=has_out, default=cm + 1,
                    joint=bset(cm) if thorough else [0, 1, cm - 1, cm, cm + 1, 2 * cm + 1],
-                   win=[16, 64] if mode == "CHAPOLY" else [cm]),
+                   win=win_m),
         ]
 
     def _new(self, inputs):
@@ -560,13 +608,13 @@ class AeadTarget(Target):
             return modes.chacha20_poly1305_encrypt(self.key, self.nonce, aad, pt)
         c, _ = _ref_cipher(self.cname, self.key)
         if self.mode == "GCM":
-            return modes.gcm_encrypt(c, self.nonce, aad, pt)
+            return modes.gcm_encrypt(c, self.nonce, aad, pt, taglen=self.mac_len or 16)
         if self.mode == "CCM":
-            return modes.ccm_encrypt(c, self.nonce, aad, pt)
+            return modes.ccm_encrypt(c, self.nonce, aad, pt, taglen=self.mac_len or 16)
         if self.mode == "EAX":
-            return modes.eax_encrypt(c, self.nonce, aad, pt)
+            return modes.eax_encrypt(c, self.nonce, aad, pt, taglen=self.mac_len)
         if self.mode == "OCB":
-            return modes.ocb_encrypt(c, self.nonce, aad, pt)
+            return modes.ocb_encrypt(c, self.nonce, aad, pt, taglen=self.mac_len or 16)
 
 
 # ---- hashes, MACs, XOFs ------------------------------------------------------------
@@ -603,6 +651,19 @@ _HASHES = {
 }
 
 
+# further parameter sets, thorough tier only
+_HASHES_DEEP = {
+    "BLAKE2b-8": ("BLAKE2b", {"digest_bytes": 1}, 128, "blake2b"),
+    "BLAKE2b-384-key64": ("BLAKE2b", {"digest_bytes": 48, "key": "K64"}, 128, "blake2b"),
+    "BLAKE2s-8": ("BLAKE2s", {"digest_bytes": 1}, 64, "blake2s"),
+    "BLAKE2s-224-key1": ("BLAKE2s", {"digest_bytes": 28, "key": "K1"}, 64, "blake2s"),
+}
+
+
+def _hash_entry(name):
+    return _HASHES[name] if name in _HASHES else _HASHES_DEEP[name]
+
+
 class HashTarget(Target):
     """spec = ("hash", name)"""
     kind = "hash"
@@ -611,11 +672,11 @@ class HashTarget(Target):
     def __init__(self, spec, thorough):
         Target.__init__(self, spec)
         name = spec[1]
-        modname, kw, b, refname = _HASHES[name]
+        modname, kw, b, refname = _hash_entry(name)
         self.mod = _hmod(modname)
         self.kw = dict(kw)
-        if self.kw.get("key") == "K32":
-            self.kw["key"] = seeded("c09/key/blake2", 32)
+        if isinstance(self.kw.get("key"), str):
+            self.kw["key"] = seeded("c09/key/blake2", int(self.kw["key"][1:]))
         self.refname = refname
         self.name = self.keyname = name
         ext = ()
@@ -623,8 +684,9 @@ class HashTarget(Target):
             pad = 9 if b == 64 else 17              # Merkle-Damgard length padding boundary
             ext = (b - pad - 1, b - pad, b - pad + 1)
         if thorough:
-            ext += (3 * b - 1, 3 * b, 3 * b + 1)
-        self.streams = [Stream("d", "update", b, bset(b, ext), bset(b))]
+            ext += (3 * b - 1, 3 * b, 3 * b + 1, 4 * b - 1, 4 * b, 4 * b + 1, 8 * b - 1, 8 * b, 8 * b + 1)
+        self.streams = [Stream("d", "update", b, bset(b, ext), bset(b, (3 * b - 1, 3 * b, 3 * b + 1) if thorough else ()),
+                               win=[b, 2 * b, 3 * b] if thorough else None)]
 
     def open(self, dirn, inputs, aux, ctor_obj):
         if ctor_obj is not None:
@@ -657,26 +719,29 @@ class HashTarget(Target):
 
 
 class MacTarget(Target):
-    """spec = ("mac", family, param)   family: HMAC (param digest name), CMAC (cipher name),
-    KMAC128/KMAC256 (mac_len), Poly1305 (cipher name)"""
+    """spec = ("mac", family, param[, options])   family: HMAC (param digest name), CMAC (cipher name),
+    KMAC128/KMAC256 (mac_len), Poly1305 (cipher name); options: (("keylen", n),) for HMAC and CMAC,
+    (("mac_len", n),) for CMAC"""
     kind = "hash"
     ctor_stream = 0
 
     def __init__(self, spec, thorough):
         Target.__init__(self, spec)
-        _, fam, param = spec
+        fam, param = spec[1:3]
+        opts = dict(spec[3]) if len(spec) > 3 else {}
         self.fam, self.param = fam, param
         self.keyname = fam
-        self.name = "%s(%s)" % (fam, param)
+        self.name = "%s(%s%s)" % (fam, param, "".join(", %s %d" % kv for kv in sorted(opts.items())))
+        self.mac_len = opts.get("mac_len")
         if fam == "HMAC":
             modname, kw, b, refname = _HASHES[param]
             self.dmod = _hmod(modname)
             self.refname = refname
-            self.key = seeded("c09/key/hmac", 20)
+            self.key = seeded("c09/key/hmac", opts.get("keylen", 20))
         elif fam == "CMAC":
             self.cmod = _cmod(param)
             b = self.cmod.block_size
-            self.key = _key(param, 16)
+            self.key = _key(param, opts.get("keylen", 16))
         elif fam in ("KMAC128", "KMAC256"):
             b = 168 if fam == "KMAC128" else 136
             self.key = seeded("c09/key/kmac", 32)
@@ -687,8 +752,9 @@ class MacTarget(Target):
             self.nonce = seeded("c09/nonce/poly", 16 if param == "AES" else 12)
         else:
             raise ValueError(fam)
-        ext = (3 * b - 1, 3 * b, 3 * b + 1) if thorough else ()
-        self.streams = [Stream("d", "update", b, bset(b, ext), bset(b))]
+        ext = (3 * b - 1, 3 * b, 3 * b + 1, 4 * b - 1, 4 * b, 4 * b + 1, 8 * b - 1, 8 * b, 8 * b + 1) if thorough else ()
+        self.streams = [Stream("d", "update", b, bset(b, ext), bset(b, (3 * b - 1, 3 * b, 3 * b + 1) if thorough else ()),
+                               win=[b, 2 * b, 3 * b] if thorough else None)]
 
     def open(self, dirn, inputs, aux, ctor_obj):
         fam = self.fam
@@ -699,9 +765,10 @@ class MacTarget(Target):
             return HashSession(HMAC.new(self.key, digestmod=self.dmod))
         if fam == "CMAC":
             from Crypto.Hash import CMAC
+            kw = {} if self.mac_len is None else {"mac_len": self.mac_len}
             if ctor_obj is not None:
-                return HashSession(CMAC.new(self.key, msg=ctor_obj, ciphermod=self.cmod))
-            return HashSession(CMAC.new(self.key, ciphermod=self.cmod))
+                return HashSession(CMAC.new(self.key, msg=ctor_obj, ciphermod=self.cmod, **kw))
+            return HashSession(CMAC.new(self.key, ciphermod=self.cmod, **kw))
         if fam in ("KMAC128", "KMAC256"):
             m = _hmod(fam)
             kw = dict(key=self.key, mac_len=self.param, custom=self.custom)
@@ -723,7 +790,8 @@ class MacTarget(Target):
                     "HMAC.new(%s, %sdigestmod=%s)" % (_hx(self.key), ("msg=%s, " % data_expr) if data_expr else "", d))
         if fam == "CMAC":
             return ("from Crypto.Hash import CMAC\nfrom Crypto.Cipher import %s" % self.param,
-                    "CMAC.new(%s, %sciphermod=%s)" % (_hx(self.key), ("msg=%s, " % data_expr) if data_expr else "", self.param))
+                    "CMAC.new(%s, %sciphermod=%s%s)" % (_hx(self.key), ("msg=%s, " % data_expr) if data_expr else "", self.param,
+                                                        "" if self.mac_len is None else ", mac_len=%d" % self.mac_len))
         if fam in ("KMAC128", "KMAC256"):
             return ("from Crypto.Hash import %s" % fam,
                     "%s.new(key=%s, mac_len=%d, custom=%r%s)" % (fam, _hx(self.key), self.param, self.custom,
@@ -743,7 +811,7 @@ class MacTarget(Target):
         if fam == "CMAC":
             from ..ref import modes
             c, _ = _ref_cipher(self.param, self.key)
-            return b"", modes.cmac(c, msg)
+            return b"", modes.cmac(c, msg)[:self.mac_len]
         if fam in ("KMAC128", "KMAC256"):
             from ..ref import keccak
             return b"", keccak.kmac(int(fam[4:]), self.key, msg, self.param, self.custom)
@@ -773,24 +841,27 @@ class XofTarget(Target):
         self.rate = rate
         self.custom = seeded("c09/custom", variant) if fam in ("cSHAKE128", "cSHAKE256", "KangarooTwelve") else None
         rext = (3 * rate - 1, 3 * rate, 3 * rate + 1) if thorough else ()
+        if thorough:
+            rext += (4 * rate - 1, 4 * rate, 4 * rate + 1)
+        rwin = [rate, 2 * rate] if thorough else None
         if fam == "KangarooTwelve":
             # S = M || C || length_encode(|C|); chunks of 8192 bytes
             clen = len(self.custom)
-            suffix = clen + (1 if clen == 0 else 2)
-            edge = 8192 - suffix
+            suffix = clen + (1 if clen == 0 else (clen.bit_length() + 7) // 8 + 1)
+            edge = (8192 - suffix) % 8192 or 8192     # shortest non-empty M that ends S on a chunk boundary
             pts = {0, 1, 167, 168, 169, edge - 1, edge, edge + 1, 8191, 8192, 8193,
-                   2 * 8192 - suffix - 1, 2 * 8192 - suffix, 2 * 8192 - suffix + 1, 16383, 16384, 16385}
+                   8192 + edge - 1, 8192 + edge, 8192 + edge + 1, 16383, 16384, 16385}
             if thorough:
-                pts |= {3 * 8192 - suffix, 3 * 8192 + 1, 8192 + 168}
+                pts |= {2 * 8192 + edge, 3 * 8192 + 1, 8192 + 168}
             d = Stream("d", "update", 8192, pts, pts, default=8193,
                        joint=[0, 1, edge, edge + 1, 8192, 8193, 16385], win=sorted({edge, 8192, 8192 + edge}))
             r = Stream("r", "read", rate, bset(rate, rext), is_len=True, default=33,
-                       joint=[0, 1, rate - 1, rate, rate + 1])
+                       joint=[0, 1, rate - 1, rate, rate + 1], win=rwin)
         else:
-            d = Stream("d", "update", rate, bset(rate, rext), bset(rate), default=rate + 1,
-                       joint=bset(rate) if thorough else [0, 1, rate - 1, rate, rate + 1])
+            d = Stream("d", "update", rate, bset(rate, rext), bset(rate, rext[:3]), default=rate + 1,
+                       joint=bset(rate) if thorough else [0, 1, rate - 1, rate, rate + 1], win=rwin)
             r = Stream("r", "read", rate, bset(rate, rext), is_len=True, default=33,
-                       joint=bset(rate) if thorough else [0, 1, rate - 1, rate, rate + 1])
+                       joint=bset(rate) if thorough else [0, 1, rate - 1, rate, rate + 1], win=rwin)
         self.streams = [d, r]
 
     def open(self, dirn, inputs, aux, ctor_obj):
@@ -906,4 +977,94 @@ def all_specs(thorough):
             (("xof", "cSHAKE128", 7), True), (("xof", "cSHAKE256", 7), True),
             (("xof", "TurboSHAKE128", 0x1F), True), (("xof", "TurboSHAKE256", 0x0B), True),
             (("xof", "KangarooTwelve", 0), True), (("xof", "KangarooTwelve", 5), True)]
+    if thorough:
+        out += [(spec, False) for spec in deep_specs()]
+    return out
+
+
+def deep_specs():
+    """Class configurations that only the thorough tier visits: the parameters that the list above fixes to one
+    value (key size, nonce length, tag length, counter layout, first counter value, segment size, key stream
+    position, customization) take further values here.  Every one gets the full grid."""
+    out = []
+    # --- CTR: counter block layouts and first counter values whose carries fall inside / at the edge of the
+    #     8-block key stream batch of raw_ctr.c (big and little endian, prefix and suffix, 1-byte and full-block counter)
+    for cname, klen, bs in (("AES", 16, 16), ("DES3", 24, 8)):
+        top = (1 << (8 * bs // 2)) - 5                    # carry out of the lower half of a full-block counter
+        for extra in ((("initial_value", 0xFB),),                        # low byte wraps in the first batch
+                      (("initial_value", 0xFFFFF9),),                    # 3-byte carry at the edge of the first batch
+                      (("nonce_len", 0), ("initial_value", top)),        # counter = whole block
+                      (("nonce_len", bs - 1),),                          # 1-byte counter
+                      (("nonce_len", bs - 2), ("initial_value", 0xF0)),  # 2-byte counter, carry in the third batch
+                      (("counter", ("le", bs // 2, 0, 0xFB)),),          # Util.Counter, little endian
+                      (("counter", ("le", 0, bs // 2, 0xFFF9)),),        # ... with a suffix instead of a prefix
+                      (("counter", ("be", 2, 2, 0xFFFA)),)):             # big endian between prefix and suffix
+            out.append(("blk", cname, klen, "CTR", 0, extra))
+    # --- CFB: every segment size the block allows (AES, 3DES)
+    for cname, klen, bs in (("AES", 16, 16), ("DES3", 24, 8)):
+        have = [8, bs * 8] + ([24, 32] if bs == 8 else [24, 64])
+        for seg in range(8, bs * 8 + 1, 8):
+            if seg not in have:
+                out.append(("blk", cname, klen, "CFB", seg, ()))
+    # --- the modes that saw one key size only
+    for klen in (24, 32):
+        for mode, seg in (("OFB", 0), ("CFB", 8), ("CFB", 128), ("OPENPGP", 0)):
+            out.append(("blk", "AES", klen, mode, seg, ()))
+    for mode, seg in (("ECB", 0), ("CTR", 0), ("CFB", 64), ("OFB", 0)):
+        out.append(("blk", "DES3", 16, mode, seg, ()))
+    for mode in ("CBC", "CTR"):
+        out.append(("blk", "Blowfish", 56, mode, 0, ()))
+        out.append(("blk", "CAST", 5, mode, 0, ()))
+    # --- stream ciphers: key stream position set with seek() first (inside a block, at its edges, and across
+    #     the 2^32-block carry of the 64-bit counter); ARC4 drop= and key sizes
+    for nlen, pos in ((8, 1), (8, 63), (8, 65), (8, (1 << 38) - 65), (12, 1), (12, 63), (12, 64), (12, 65),
+                      (24, 63), (24, 65)):
+        out.append(("stream", "ChaCha20", 32, nlen, (("seek", pos),)))
+    out += [("stream", "ARC4", 16, 0, (("drop", 768),)), ("stream", "ARC4", 5, 0), ("stream", "ARC4", 256, 0)]
+    # --- AEADs: key sizes, nonce lengths, tag lengths
+    A = "AES"
+    out += [("aead", "GCM", A, 16, None, (("nonce_len", 12),)),          # J0 = nonce || 1 (no GHASH of the nonce)
+            ("aead", "GCM", A, 16, None, (("nonce_len", 16),)),
+            ("aead", "GCM", A, 16, None, (("nonce_len", 1),)),
+            ("aead", "GCM", A, 24, None, (("nonce_len", 12),)),
+            ("aead", "GCM", A, 32, None, (("nonce_len", 12),)),
+            ("aead", "GCM", A, 16, None, (("mac_len", 4), ("nonce_len", 12))),
+            ("aead", "GCM", A, 16, None, (("mac_len", 12),)),
+            ("aead", "EAX", A, 24, None, ()),
+            ("aead", "EAX", A, 32, None, (("nonce_len", 16),)),
+            ("aead", "EAX", A, 16, None, (("mac_len", 4), ("nonce_len", 1))),
+            ("aead", "EAX", "Blowfish", 16, None, (("mac_len", 8),)),
+            ("aead", "OCB", A, 24, None, ()),
+            ("aead", "OCB", A, 32, None, (("nonce_len", 15),)),
+            ("aead", "OCB", A, 16, None, (("nonce_len", 1),)),
+            ("aead", "OCB", A, 16, None, (("nonce_len", 12),)),
+            ("aead", "OCB", A, 16, None, (("mac_len", 8),)),
+            ("aead", "OCB", A, 16, None, (("mac_len", 12), ("nonce_len", 12))),
+            ("aead", "OCB", A, 16, None, (("use_aesni", False),)),
+            ("aead", "CCM", A, 24, (False, False), ()),
+            ("aead", "CCM", A, 32, (True, True), ()),
+            ("aead", "CCM", A, 16, (False, False), (("nonce_len", 7),)),
+            ("aead", "CCM", A, 16, (True, True), (("nonce_len", 13),)),
+            ("aead", "CCM", A, 16, (False, True), (("mac_len", 4),)),
+            ("aead", "CCM", A, 16, (True, False), (("mac_len", 8), ("nonce_len", 12))),
+            ("aead", "CCM", A, 16, (True, True), (("use_aesni", False),))]
+    # --- hashes and MACs
+    out += [("hash", name) for name in _HASHES_DEEP]
+    for d in ("SHA224", "SHA384", "SHA3-224", "SHA3-384", "SHA3-512"):
+        out.append(("mac", "HMAC", d))
+    out += [("mac", "HMAC", "SHA256", (("keylen", 64),)),                # key = one block
+            ("mac", "HMAC", "SHA256", (("keylen", 65),)),                # key longer than a block (hashed first)
+            ("mac", "HMAC", "SHA512", (("keylen", 129),)),
+            ("mac", "HMAC", "SHA3-256", (("keylen", 137),)),
+            ("mac", "CMAC", "AES", (("keylen", 24),)), ("mac", "CMAC", "AES", (("keylen", 32),)),
+            ("mac", "CMAC", "AES", (("mac_len", 8),)), ("mac", "CMAC", "DES3", (("keylen", 24), ("mac_len", 4))),
+            ("mac", "CMAC", "DES", (("keylen", 8),)), ("mac", "CMAC", "Blowfish"),
+            ("mac", "CMAC", "CAST"), ("mac", "CMAC", "ARC2"),
+            ("mac", "KMAC128", 8), ("mac", "KMAC128", 200), ("mac", "KMAC256", 16), ("mac", "KMAC256", 137)]
+    # --- XOFs: customization strings (none, longer than one rate block), domain bytes, K12 customization that
+    #     fills a whole chunk by itself
+    out += [("xof", "cSHAKE128", 0), ("xof", "cSHAKE128", 200), ("xof", "cSHAKE256", 0), ("xof", "cSHAKE256", 137),
+            ("xof", "TurboSHAKE128", 0x01), ("xof", "TurboSHAKE128", 0x7F), ("xof", "TurboSHAKE256", 0x01),
+            ("xof", "TurboSHAKE256", 0x7F),
+            ("xof", "KangarooTwelve", 1), ("xof", "KangarooTwelve", 8190)]
     return out
